@@ -16,7 +16,7 @@ def runs(tier, seed, replay):
 
 CONFIG = {
     "runs": runs,
-    "status": "full: C01_count_flat, C01_same_function_same_count, C01_models_enum (all WF circuits, unbounded Z). d4 loader: the whole loader is an exact Gallina model (Model/LexerD4.v lex_line_d4 with the nom prefix/greedy semantics; Model/LoadD4.v load_d4 = build_d4_ddnnf + Ddnnf::new/rebuild on a StableGraph model: global newest-first edge list = petgraph's outgoing AND incoming neighbour order, edge/node removal, free-list index recycling, DfsPostOrder as a stack machine over the mutating graph, the three traversals, explicit None for every panic) and FULL: C01_d4_loader_sem - for every token list with no literal 0 whose part below node 1 is a DAG (d4_ok) that loads (load_d4 toks n = Some (C, n')): n' = max n (largest mentioned feature) and eval_root s C = eval_d4 toks s for every total assignment s, eval_d4 = value of node 1 of the raw d4 DAG (Spec/D4Sem.v); proved pass by pass: the line loop builds a graph that represents the file (rep: edge-literal expansion over shared literal leaves), the fresh And root over the free features has the value of node 0, true/false elimination incl. delete_parent_and_chain keeps label and value of every survivor (C01_d4_pass2_preserves), smoothing keeps label and value of every node (C01_d4_pass3_preserves; And(c, f or not f) = c with shared or-triangles), rebuild renumbers; C01_d4_loader_sem_any_order: the same with or without index recycling and for ANY permutation oracle as hash order (the unrepaired C18 loader never changed the function, only the child order). partial: C01_d4_loader_wf_partial - that every conforming d4 file loads to a WF vector (smoothness after balancing with node sharing, the determinism certificate surviving the rewrites, reachability) is NOT a theorem; proved is: d4_ok, load_d4 = Some (C, n') and check_wf C n' = true imply WF C n' and root_count C = number of satisfying assignments of THE FILE over 1..n'; check_wf is evaluated by the extracted verified checker on every generated and corpus input. REFUTED without that check: C01_d4_loader_wf_refuted - a feature mentioned only below a dead branch is neither free nor kept: o 1 0 / a 2 0 / f 3 0 / t 4 0 / 2 3 0 / 1 2 1 2 0 / 1 4 -1 0 with 2 features denotes not-x1 (2 models), the loaded vector [L -1; A 0; O 1] has count 1 (confirmed against the code by run ld4); the generator keeps every mentioned feature on a live branch, as d4 itself does. The c2d loader theorem lives in C10 (exact model, save/reload). Correspondence: run c01 (counts, check_wf, truth table of the source formula) and run ld4 (load_lines = dumped Ddnnf.nodes exactly, number_of_variables, panics, lexer outcome Ok/Err/panic per line, eval_d4 of the file = truth table of the source formula)",
+    "status": "full: C01_count_flat, C01_same_function_same_count, C01_models_enum (all WF circuits, unbounded Z). d4 loader: the whole loader is an exact Gallina model (Model/LexerD4.v lex_line_d4 with the nom prefix/greedy semantics; Model/LoadD4.v load_d4 = build_d4_ddnnf + Ddnnf::new/rebuild on a StableGraph model: global newest-first edge list = petgraph's outgoing AND incoming neighbour order, edge/node removal, free-list index recycling, DfsPostOrder as a stack machine over the mutating graph, the three traversals, explicit None for every panic) and FULL: C01_d4_loader_sem - for every token list with no literal 0 whose part below node 1 is a DAG (d4_ok) that loads (load_d4 toks n = Some (C, n')): n' = max n (largest mentioned feature) and eval_root s C = eval_d4 toks s for every total assignment s, eval_d4 = value of node 1 of the raw d4 DAG (Spec/D4Sem.v); proved pass by pass: the line loop builds a graph that represents the file (rep: edge-literal expansion over shared literal leaves), the fresh And root over the free features has the value of node 0, true/false elimination incl. delete_parent_and_chain keeps the value of every survivor and its label, except that an or node with a true child becomes a true node (repair F12; C01_d4_pass2_preserves), smoothing keeps label and value of every node (C01_d4_pass3_preserves; And(c, f or not f) = c with shared or-triangles), rebuild renumbers; C01_d4_loader_sem_any_order: the same with or without index recycling and for ANY permutation oracle as hash order (the unrepaired C18 loader never changed the function, only the child order). partial: C01_d4_loader_wf_partial - that every conforming d4 file loads to a WF vector (smoothness after balancing with node sharing, the determinism certificate surviving the rewrites, reachability) is NOT a theorem; proved is: d4_ok, load_d4 = Some (C, n') and check_wf C n' = true imply WF C n' and root_count C = number of satisfying assignments of THE FILE over 1..n'; check_wf is evaluated by the extracted verified checker on every generated and corpus input. REFUTED without that check: C01_d4_loader_wf_refuted - a feature mentioned only below a dead branch is neither free nor kept: o 1 0 / a 2 0 / f 3 0 / t 4 0 / 2 3 0 / 1 2 1 2 0 / 1 4 -1 0 with 2 features denotes not-x1 (2 models), the loaded vector [L -1; A 0; O 1] has count 1 (confirmed against the code by run ld4); the generator keeps every mentioned feature on a live branch, as d4 itself does. C01_d4_or_true_child_v0 (finding F12, repaired): the loader before the repair leaves the true node of d4's tautology idiom o 1 0 / t 2 0 / 1 2 0 below the or node (no_true_false fails; enumerate, sampling, atomic sets and to-cnf panicked on it), the loader now returns a vector without true/false nodes that passes check_wf and has the file's count; the input space contains d4's root idiom (or node 1 with one unlabelled edge) as a class. The c2d loader theorem lives in C10 (exact model, save/reload). Correspondence: run c01 (counts, check_wf, truth table of the source formula) and run ld4 (load_lines = dumped Ddnnf.nodes exactly, number_of_variables, panics, lexer outcome Ok/Err/panic per line, eval_d4 of the file = truth table of the source formula)",
     "assumptions": [
         "the d4 loader is modelled exactly (Model/LoadD4.v = build_d4_ddnnf + rebuild on a StableGraph model: adjacency order, edge and node "
         "removal, index recycling, the three traversals); the exact comparison is restricted to vectors of <= 400 (quick) / 1500 (thorough) "
